@@ -166,13 +166,17 @@ def observe(s, intent=None, styles=None, seps=None, lead="", trail="", full_run=
     if intent is not None:
         argv = ["prog"] + list(intent)
         before = list(argv)
-        aa = ArgvArgs(argv)
         ev["hasArgv"] = True
-        ev["argv"] = {"toks": [chars(t) for t in aa.tokens], "opt": [chars(t) for t in aa.option_tokens]}
-        ev["outArgv"] = outcome(aa) + ("" if argv == before else "|argv-mutated")
         ev["outStr"] = outcome(sa) if sa is not None else "exc"
+        try:   # the argv route: every exception is an observation (an outcome that differs from the string route's)
+            aa = ArgvArgs(argv)
+            ev["argv"] = {"toks": [chars(t) for t in aa.tokens], "opt": [chars(t) for t in aa.option_tokens]}
+            ev["outArgv"] = outcome(aa) + ("" if argv == before else "|argv-mutated")
+            if full_run:
+                ev["outArgv"] += run_outcome(ArgvArgs(argv))   # the caller's list handed in a second time
+        except Exception as e:  # noqa
+            ev["outArgv"] += "|exc:" + type(e).__name__
         if full_run:
-            ev["outArgv"] += run_outcome(ArgvArgs(argv))
             ev["outStr"] += run_outcome(StringArgs(s)) if sa is not None else "exc"
     return ev
 
